@@ -16,7 +16,7 @@ def run(chk, tier, seed):
         chk.broken.append("harness does not build against /repo: " + binary[-1500:])
         return
     rng = random.Random(seed * 733 + 14)
-    roots = D.roots_for(U, exclude=("k13bulk", "hist", "kf", "arrayvec", "ignored"))
+    roots = D.roots_for(U, exclude=("k13bulk", "hist", "kf", "arrayvec", "ignored", "vervariant"))
     pick = rng.sample(roots, min(len(roots), 6 if tier == "quick" else 40))
     lines, meta = [], {}
     for ri, r in pick:
